@@ -52,15 +52,22 @@ elif mode == 'pandas':
     import pandas
     from rbql import rbql_pandas
     for c in arg:
-        df = pandas.DataFrame(c['A'], columns=c['names'])
-        jdf = None if c.get('B') is None else pandas.DataFrame(c['B'], columns=['j1', 'j2'])
+        # column labels of several kinds: strings, integers (years), mixed, the default RangeIndex
+        kind = c.get('labels', 'str')
+        w = len(c['names'])
+        labels = {'str': c['names'], 'int': [2019 + i for i in range(w)], 'mixed': (['kind', 7, 2.5, ('t', 1)] * w)[:w], 'range': None}[kind]
+        df = pandas.DataFrame(c['A'], columns=labels)
+        jdf = None if c.get('B') is None else pandas.DataFrame(c['B'], columns=(['j1', 'j2'] if kind == 'str' else [10, 20] if kind != 'range' else None))
         before = df.copy(deep=True); jb = None if jdf is None else jdf.copy(deep=True)
+        lab = lambda d: None if d is None else [type(d.columns).__name__] + [(type(x).__name__, repr(x)) for x in d.columns]
+        lab_before = (lab(df), lab(jdf))
         err = None
         try:
             rbql_pandas.query_dataframe(c['py'], df, [], jdf)
         except Exception as e:
             err = type(e).__name__
         same = df.equals(before) and list(df.dtypes) == list(before.dtypes) and list(df.columns) == list(before.columns) and (jdf is None or (jdf.equals(jb) and list(jdf.dtypes) == list(jb.dtypes)))
+        same = same and (lab(df), lab(jdf)) == lab_before       # label VALUES and TYPES (2019 must not become '2019')
         out.append({'mutated': not same, 'err': err})
 elif mode == 'files':
     d = tempfile.mkdtemp(prefix='rbqlverif_c06_')
@@ -195,8 +202,9 @@ def run(res, tier, seed):
     # (c) pandas, (d) sqlite file, (e) CSV files
     rect = [c for c in cases if c['A'] and len(set(len(r) for r in c['A'])) == 1 and all(isinstance(x, str) for r in c['A'] for x in r)
             and (c.get('B') is None or (c['B'] and all(len(r) == 2 and all(isinstance(x, str) for x in r) for r in c['B'])))][:300 if tier == 'quick' else 3000]
-    for c in rect:
+    for i, c in enumerate(rect):
         c['names'] = ['n%d' % i for i in range(len(c['A'][0]))]
+        c['labels'] = ['str', 'int', 'mixed', 'range'][i % 4]
     pout = impl('pandas', rect)
     fout = impl('files', [c for c in rect if all(',' not in x and '\n' not in x for r in c['A'] for x in r)][:150 if tier == 'quick' else 1500])
     res.evaluations += len(pout) + 2 * len(fout)
